@@ -798,6 +798,16 @@ fn abort_result(p: Box<dyn std::any::Any + Send>) -> OpResult {
     }
 }
 
+/// Resident set size of this process in KiB (0 if unknown). Used only to stop *early* — a
+/// minimisation or a chunk of runs — before the engine's leaked proof trees exhaust memory.
+pub fn resident_kib() -> u64 {
+    std::fs::read_to_string("/proc/self/statm")
+        .ok()
+        .and_then(|t| t.split(' ').nth(1).and_then(|v| v.parse::<u64>().ok()))
+        .unwrap_or(0)
+        * 4
+}
+
 /// Progress counter for the worker's watchdog.
 pub static HEARTBEAT: std::sync::atomic::AtomicU64 = std::sync::atomic::AtomicU64::new(0);
 
